@@ -9,6 +9,7 @@ the note's onset / offset, as exact rationals; float32 rounding enters only in t
 -/
 import PartituraModel.Props.C05
 import PartituraModel.Proofs.C05Compose
+import PartituraModel.Proofs.C05Float
 
 namespace C05
 open NoteArray List Model
@@ -61,6 +62,31 @@ theorem rest_row_values_composed (d : Desc) (notes : List Note) (o : Opts) (out 
   · rw [hrow]; rfl
   · rw [hrow]
     exact mkRow_composed d o n dur 0 0 "0" 0 0 (needOK_mem d o notes _ hok n hn' dur hd')
+
+-- ------------------------------------------------------------------ float32
+
+/-- **The only rounding in the table is a correct float32 rounding.**  For `x ≠ 0` in the normal range, with
+    `e = expOf |x|` the binary exponent (`2^e ≤ |x| < 2^(e+1)`): `f32round x` is `m * 2^(e-23)` for an integer
+    `|m| ≤ 2^24` (so it is a binary32 number), it is within half a unit in the last place of `x`, hence within
+    `|x| / 2^24` — the tolerance the float columns are compared with is 16 times that. -/
+theorem float32_rounding (x : Rat) (hx : x ≠ 0) (hnorm : pow2 (-126) ≤ |x|) :
+    pow2 (expOf |x|) ≤ |x| ∧ |x| < pow2 (expOf |x| + 1) ∧
+    |f32round x - x| ≤ pow2 (expOf |x| - 24) ∧ |f32round x - x| ≤ |x| / 2 ^ 24 ∧
+    ∃ m : Int, f32round x = (m : Rat) * pow2 (expOf |x| - 23) ∧ |m| ≤ 2 ^ 24 := by
+  obtain ⟨h1, h2, h3, h4⟩ := f32round_spec x hx hnorm
+  refine ⟨h1, h2, h3, ?_, h4⟩
+  have e : pow2 (expOf |x|) = 2 ^ 24 * pow2 (expOf |x| - 24) := by
+    rw [pow2_eq_zpow, pow2_eq_zpow, show expOf |x| = 24 + (expOf |x| - 24) by omega,
+      zpow_add₀ (by norm_num : (2 : Rat) ≠ 0)]
+    norm_num
+  rw [le_div_iff₀ (by norm_num : (0 : Rat) < 2 ^ 24)]
+  calc |f32round x - x| * 2 ^ 24 ≤ pow2 (expOf |x| - 24) * 2 ^ 24 := by
+        apply mul_le_mul_of_nonneg_right h3; norm_num
+    _ = pow2 (expOf |x|) := by rw [e]; ring
+    _ ≤ |x| := h1
+
+/-- zero is stored as zero -/
+theorem float32_zero : f32round 0 = 0 := rfl
 
 -- ------------------------------------------------------------------ entry points
 
